@@ -294,14 +294,23 @@ fn translate(s: &Snapshot, text: &str) -> Vec<char> {
 
 struct DrawFlags {
     zw_wraps: bool,
-    comb_on_blank: bool,
+    /// bit i set = the i-th combining mark that lands on a blank cell is ignored (else appended)
+    comb_ignore_mask: u32,
     stop_at_unprintable: bool,
     nfc: bool,
 }
 
-fn draw_with(pre: &Snapshot, text: &[char], f: &DrawFlags, used: &mut [bool; 4], scrolled: &mut bool) -> Snapshot {
+fn draw_with(
+    pre: &Snapshot,
+    text: &[char],
+    f: &DrawFlags,
+    used: &mut [bool; 4],
+    scrolled: &mut bool,
+    blank_marks: &mut u32,
+) -> Snapshot {
     let mut s = pre.clone();
     let c = s.columns;
+    let mut mark_no = 0u32;
     for &ch in text {
         let w = ch.width().unwrap_or(0) as u32;
         if s.x == c {
@@ -353,10 +362,14 @@ fn draw_with(pre: &Snapshot, text: &[char], f: &DrawFlags, used: &mut [bool; 4],
                 if tx < c as usize {
                     let blank = s.blank();
                     let is_blank = s.grid[ty][tx] == blank;
+                    let mut ignore = false;
                     if is_blank {
                         used[1] = true;
+                        ignore = mark_no < 32 && (f.comb_ignore_mask >> mark_no) & 1 == 1;
+                        mark_no += 1;
+                        *blank_marks = mark_no;
                     }
-                    if !is_blank || f.comb_on_blank {
+                    if !ignore {
                         let cell = &mut s.row_mut(ty)[tx];
                         let base: String = if f.nfc { cell.data.nfc().collect() } else { cell.data.clone() };
                         if base != cell.data {
@@ -389,34 +402,45 @@ fn push_unique(v: &mut Vec<Snapshot>, s: Snapshot) {
 
 fn draw(pre: &Snapshot, text: &str, e: &mut Exp) {
     let chars = translate(pre, text);
+    // primary reading first (what pyte does), then every combination of admitted alternatives.
+    // A combining mark over a blank cell may be appended or ignored *independently per mark*: the
+    // abstraction cannot tell a never-written cell from one holding a written space.
     let mut used = [false; 4];
-    // primary reading first (what pyte does), then every combination of admitted alternatives
-    for bits in 0..16u32 {
-        // skip combinations that toggle a flag which the primary reading never consulted
-        if bits != 0
-            && ((bits & 1 != 0 && !used[0])
-                || (bits & 2 != 0 && !used[1])
-                || (bits & 4 != 0 && !used[2])
-                || (bits & 8 != 0 && !used[3]))
-        {
+    let mut scrolled = false;
+    let mut blank_marks = 0u32;
+    let primary = DrawFlags { zw_wraps: true, comb_ignore_mask: 0, stop_at_unprintable: true, nfc: true };
+    let s0 = draw_with(pre, &chars, &primary, &mut used, &mut scrolled, &mut blank_marks);
+    if scrolled {
+        e.scrolled = true;
+    }
+    push_unique(&mut e.alts, s0);
+    // every combining mark of the text may be the one that meets a blank cell (which marks do
+    // depends on the choices made for the earlier ones): up to 32 patterns
+    let _ = blank_marks;
+    let k = if used[1] { (chars.iter().filter(|c| is_combining_mark(**c)).count() as u32).min(5) } else { 0 };
+    for bits in 0..8u32 {
+        if (bits & 1 != 0 && !used[0]) || (bits & 2 != 0 && !used[2]) || (bits & 4 != 0 && !used[3]) {
             continue;
         }
-        let f = DrawFlags {
-            zw_wraps: bits & 1 == 0,
-            comb_on_blank: bits & 2 == 0,
-            stop_at_unprintable: bits & 4 == 0,
-            nfc: bits & 8 == 0,
-        };
-        let mut u = [false; 4];
-        let mut scrolled = false;
-        let s = draw_with(pre, &chars, &f, &mut u, &mut scrolled);
-        if scrolled {
-            e.scrolled = true;
+        for mask in 0..(1u32 << k) {
+            if bits == 0 && mask == 0 {
+                continue;
+            }
+            let f = DrawFlags {
+                zw_wraps: bits & 1 == 0,
+                comb_ignore_mask: mask,
+                stop_at_unprintable: bits & 2 == 0,
+                nfc: bits & 4 == 0,
+            };
+            let mut u = [false; 4];
+            let mut sc = false;
+            let mut bm = 0u32;
+            let s = draw_with(pre, &chars, &f, &mut u, &mut sc, &mut bm);
+            if sc {
+                e.scrolled = true;
+            }
+            push_unique(&mut e.alts, s);
         }
-        if bits == 0 {
-            used = u;
-        }
-        push_unique(&mut e.alts, s);
     }
     if used[0] {
         e.lenient.push("lenient_zero_width_at_pending_wrap");
